@@ -200,3 +200,30 @@ fn c18_rhct_oversize_nodes_refused() {
         panic!("hart info node of {} bytes returned with length field {}", b.len(), le16_at(&b, 2));
     }
 }
+
+// ---- RIMT / VIOT / HEST: count field crossing a byte boundary (C01)
+#[test]
+fn c01_rimt_checksum_after_256_devices() {
+    use acpi_tables::rimt::*;
+    let mut t = RIMT::new(*b"FOOBAR", *b"DECAFCOF", 1);
+    check_table("RIMT(new)", &ser(&t));
+    for i in 0..260u32 {
+        t.add_platform(Platform::new(i as u16, "ab".to_string(), None));
+        let b = ser(&t);
+        check_table(&format!("RIMT after {} adds", i + 1), &b);
+        assert_eq!(le32_at(&b, 36), i + 1, "device count");
+    }
+}
+#[test]
+fn c18_rimt_oversize_devices_refused() {
+    use acpi_tables::rimt::*;
+    let wires: Vec<InterruptWire> = (0..8190).map(|i| InterruptWire::new(i, true, true, 0)).collect();
+    let r = refuses(|| ser(&Iommu::new(1, None, None, None, Some(wires))));
+    if let Err(b) = r {
+        panic!("IOMMU device of {} bytes returned with length field {}", b.len(), le16_at(&b, 2));
+    }
+    let r = refuses(|| ser(&Platform::new(1, "n".repeat(65536), None)));
+    if let Err(b) = r {
+        panic!("platform device of {} bytes returned with length field {}", b.len(), le16_at(&b, 2));
+    }
+}
